@@ -1,3 +1,97 @@
-import Driver.Common
-/- stub: model driver for C09 not built yet -/
-def main : IO Unit := Driver.lineLoop (fun _ => "unimplemented")
+import Driver.GenVL
+import ThriftVerif.Gen.Unknown
+/- model driver for C09: (a) the `unknown` package alone (`UA`, `UW`), (b) hops between generated programs -/
+namespace Driver.C09
+open Gen Gen.Unknown Driver.GenVL
+
+/-- canonical bytes of a wire value: map entries sorted by encoded key (what refcodec.Canon does) -/
+partial def canonW : Wire.WVal → Wire.WVal
+  | .struct fs => .struct (fs.map fun (i, v) => (i, canonW v))
+  | .list t xs => .list t (xs.map canonW)
+  | .set t xs => .set t (xs.map canonW)
+  | .map k v kvs =>
+      let es := kvs.map fun (a, b) => (canonW a, canonW b)
+      let keyed := es.map fun (a, b) => (VL.hexEncode (Wire.encW a), (a, b))
+      let sorted := keyed.foldr (fun x acc => ins x acc) []
+      .map k v (sorted.map (·.2))
+  | w => w
+where ins (x : String × (Wire.WVal × Wire.WVal)) : List (String × (Wire.WVal × Wire.WVal)) → List (String × (Wire.WVal × Wire.WVal))
+  | [] => [x]
+  | y :: r => if x.1 ≤ y.1 then x :: y :: r else y :: ins x r
+
+/-- canonical form of the bytes of one struct (as the harness canonicalises the implementation's answer) -/
+def canonBytes (bs : Bytes) : String :=
+  match Wire.decW 300 .struct bs with
+  | some (w, []) => VL.hexEncode (Wire.encW (canonW w))
+  | _ => "malformed:" ++ VL.hexEncode bs
+
+def wrStr : WR → String
+  | .ok _ out => "ok " ++ VL.hexEncode out
+  | .err => "err"
+  | .panic => "panic"
+  | .crash => "crash"
+
+def step (ps : Progs) (line : String) : Progs × String :=
+  let toks := VL.toks line
+  match schemaLine ps toks with
+  | some r => r
+  | none =>
+    match toks with
+    | ["UA", hex] =>
+      match VL.hexDecode hex with
+      | some bs =>
+        let r := appendLoop (bs.length + 1) (St.fresh bs) []
+        (ps, (if r.err then "err " else "ok ") ++ VL.hexEncode r.out ++ s!" {r.st.inp.length} w:" ++ wrStr (writeR r.out))
+      | none => (ps, "bad-op")
+    | ["UW", hex] =>
+      match VL.hexDecode hex with
+      | some bs => (ps, wrStr (writeR bs))
+      | none => (ps, "bad-op")
+    | "W" :: key :: rest =>
+      match splitKey key with
+      | some (u, i) => match ps.get u, parseVal rest with
+        | some P, some (v, []) =>
+            (ps, match Std.toW P (.struct i) v with
+              | .ok w => "ok " ++ VL.hexEncode (Wire.encW (canonW w))
+              | .err => "err" | .panic => "panic")
+        | _, _ => (ps, "bad-op")
+      | none => (ps, "bad-op")
+    | ["R", key, hex] =>
+      match splitKey key with
+      | some (u, i) => match ps.get u, VL.hexDecode hex with
+        | some P, some bs =>
+            if P.keepUnknown then
+              (ps, match readKU P i bs with
+                | some v => "ok " ++ showVal P (.struct i) (strip P.structs (.struct i) v)
+                | none => "err")
+            else
+              (ps, match Std.read P i bs with
+                | some v => "ok " ++ showVal P (.struct i) v
+                | none => "err")
+        | _, _ => (ps, "bad-op")
+      | none => (ps, "bad-op")
+    | ["H", key, hex] =>
+      match splitKey key with
+      | some (u, i) => match ps.get u, VL.hexDecode hex with
+        | some P, some bs =>
+            if P.keepUnknown then
+              (ps, match readKU P i bs with
+                | none => "rerr"
+                | some v => match writeKU P i v with
+                  | .ok out => "ok " ++ canonBytes out ++ (if carryingObj v then " c=1" else " c=0")
+                  | .err => "werr" ++ (if carryingObj v then " c=1" else " c=0")
+                  | .panic => "panic")
+            else
+              (ps, match Std.read P i bs with
+                | none => "rerr"
+                | some v => match Std.write P i v with
+                  | .ok out => "ok " ++ canonBytes out ++ " c=-"
+                  | .err => "werr c=-"
+                  | .panic => "panic")
+        | _, _ => (ps, "bad-op")
+      | none => (ps, "bad-op")
+    | _ => (ps, "bad-op")
+
+end Driver.C09
+
+def main : IO Unit := Driver.stateLoop ([] : Driver.GenVL.Progs) Driver.C09.step
